@@ -327,7 +327,8 @@ PROPS = {
                 "naming the item or the variable; (D) every 8th case is a group under "
                 "optional/many/some/collect/last given only in part whose other required member "
                 "(named or variable-only) is absent together with its variable: the run fails "
-                "naming that member or variable, and succeeds once the variable is set. Every 8th case is repeated in a child process "
+                "naming that member or variable, and succeeds once the variable is set; (E) an "
+                "adjacent group led by a variable-backed argument (F40). Every 8th case is repeated in a child process "
                 "whose environment comes from the OS. " + DISTINCT,
         "assumptions": COMMON_ASSUMPTIONS + [
             "Shard processes are single-threaded, so set_var/remove_var between cases is safe.",
